@@ -1,0 +1,10 @@
+//go:build verif
+
+// Contracts for the verif build tag (read by /verif/govc; comment-only).
+package wal
+
+//@ func wal.checkNextOffset
+//@ property C08 C09
+//@ ensures (result == nil) <==> (nextOffset >= 0 && (old(t.lastAppendedOffset.v) == -1 || nextOffset == old(t.lastAppendedOffset.v) + 1))
+//@ ensures result != nil && nextOffset >= 0 ==> errIs(result, ErrInvalidNextOffset)
+//@ modifies nothing
